@@ -364,6 +364,34 @@ pub enum NextItem {
     EndFile,
 }
 
+/// The conditional directive a line starts with (after an optional label), for lines of an
+/// unselected branch that the grammar does not accept: `.if 1 +`, `.if @0` in a macro
+/// definition, an `.if` with a too complex condition. They still open or close a block.
+fn conditional_keyword(line: &str) -> Option<Directive> {
+    let mut rest = line.trim_start();
+    if let Some(colon) = rest.find(':') {
+        let label = &rest[..colon];
+        if !label.is_empty() && label.chars().all(|c| c.is_ascii_alphanumeric() || c == '_') {
+            rest = rest[colon + 1..].trim_start();
+        }
+    }
+    let rest = rest.strip_prefix('.').or_else(|| rest.strip_prefix('#'))?;
+    let word: String = rest
+        .chars()
+        .take_while(|c| c.is_ascii_alphabetic())
+        .collect();
+    // (the grammar knows directives in lower case only)
+    match word.as_str() {
+        "if" => Some(Directive::If),
+        "ifdef" => Some(Directive::IfDef),
+        "ifndef" => Some(Directive::IfNDef),
+        "elif" => Some(Directive::ElIf),
+        "else" => Some(Directive::Else),
+        "endif" => Some(Directive::Endif),
+        _ => None,
+    }
+}
+
 fn skip<'a>(
     iter: &mut dyn Iterator<Item = (usize, &'a str)>,
     context: &ParseContext,
@@ -408,10 +436,17 @@ fn skip<'a>(
                 while let Some((num, line)) = iter.next() {
                     #[cfg(feature = "verif")]
                     crate::verif::step();
-                    if too_complex(line) {
-                        // cannot be a directive that ends the search
-                    } else if let Ok(item) = document::line(line) {
-                        if let Document::DirectiveLine(_, directive, _) = item {
+                    let directive = if too_complex(line) {
+                        conditional_keyword(line)
+                    } else {
+                        match document::line(line) {
+                            Ok(Document::DirectiveLine(_, directive, _)) => Some(directive),
+                            Ok(_) => None,
+                            Err(_) => conditional_keyword(line),
+                        }
+                    };
+                    {
+                        if let Some(directive) = directive {
                             if other == NextItem::EndIfChain {
                                 if directive == Directive::If
                                     || directive == Directive::IfDef
